@@ -14,8 +14,8 @@ import (
 	"sort"
 
 	"verif/harness/internal/bt"
-	"verif/harness/internal/gcs"
 	"verif/harness/internal/core"
+	"verif/harness/internal/gcs"
 )
 
 func main() {
@@ -31,6 +31,8 @@ func main() {
 		cmdBt(os.Args[2:])
 	case "gcsconc":
 		cmdGcsConc(os.Args[2:])
+	case "btcrash":
+		cmdBtCrash(os.Args[2:])
 	case "btscan":
 		cmdBtScan(os.Args[2:])
 	case "btconc":
@@ -203,4 +205,10 @@ func cmdGcs(args []string) {
 	if len(rep.Mismatches) > 0 || len(rep.ModelErrors) > 0 {
 		os.Exit(1)
 	}
+}
+
+func filepathGlob(dir string) ([]string, error) {
+	files, err := filepath.Glob(filepath.Join(dir, "*.json"))
+	sort.Strings(files)
+	return files, err
 }
